@@ -407,7 +407,8 @@ Section MatchesSpec.
 
   (* every custom_func of the tree is registered (validate checks this) *)
   Definition funcs_ok (v : vdecl) : Prop :=
-    forall d, In d (subdecls v) -> forall name, p_fname (v_pub (vd_info d)) = Some name -> fsigs name <> None.
+    forall d, In d (subdecls v) -> p_kind (v_pub (vd_info d)) = KCustomFunc ->
+    forall name, p_fname (v_pub (vd_info d)) = Some name -> fsigs name <> None.
 
   Lemma wf_b_kind t i x ks : wf_b t (VD i x ks) = true ->
     match p_kind (v_pub i) with
@@ -520,7 +521,7 @@ Section MatchesSpec.
       assert (Hk : Forall (fun c => child_ok c true) ks).
       { eapply Forall_impl; [|apply (Hkids true); reflexivity]. intros c [H _]. exact H. }
       assert (Hsig : fsigs name <> None).
-      { apply (Hfn (VD i x ks) (self_sub _)). exact FN. }
+      { apply (Hfn (VD i x ks) (self_sub _)); [exact K|exact FN]. }
       assert (Hbody : forall n, V n ->
                 p_then_norm e (p_invoke fsigs fcall e (map (fun c => (kid_key KCustomFunc c, pcompile c)) ks) n)
                 = to_res (spec_call fsigs fcall (nrm i) name (p_ignore (v_pub i)) n
